@@ -1541,3 +1541,54 @@ Lemma builtin_ok_unspecified ob b : builtin_ok ob (fun _ _ => None) b.
 Proof. intros m sp0 vs rs r _ _ _ _ _ H. discriminate. Qed.
 
 Print Assumptions compile_correct.
+
+(* ============================================================ a real builtin: `not` *)
+From MW Require Model.ListVec Model.Builtins.
+
+Definition B_NOT : N :=
+  match find_index (fun e => text_eqb (fst e) (S_ "not")) Gen.Builtins.builtin_table 0 with
+  | Some i => i | None => 0 end.
+
+Lemma run_builtin_not : Vm.run_builtin Builtins.other_builtin B_NOT = ListVec.not_b.
+Proof. vm_compute. reflexivity. Qed.
+
+(* the specification table that knows `not` only *)
+Definition bsem_not (b : N) (rs : list rval) : option rval :=
+  if b =? B_NOT then match rs with [r] => Some (RDatum (CBool (is_false r))) | _ => None end else None.
+
+Lemma vrep_bool b h s : vrep (VBool b) (RDatum (CBool b)) h s.
+Proof. split; [apply reads_imm; intros; reflexivity|intros p; discriminate]. Qed.
+
+Theorem builtin_ok_not : forall b, builtin_ok Builtins.other_builtin bsem_not b.
+Proof.
+  intros b m sp0 vs rs r MI Hsp Htop Hargs Hvs Hsem. unfold bsem_not in Hsem.
+  destruct (N.eqb_spec b B_NOT) as [->|]; [|discriminate].
+  destruct rs as [|r1 [|? ?]]; try discriminate. injection Hsem as <-.
+  inversion Hvs as [|v1 r1' vs1 rs1 V1 Hnil]; subst. inversion Hnil; subst.
+  change (len [v1]) with 1 in *.
+  pose proof (Hargs 0 v1 eq_refl) as H1. rewrite N.add_0_r in H1.
+  destruct (vrep_truth _ _ _ _ V1) as (w & Hw & Hwf).
+  pose proof (mi_sp _ MI) as Hcap.
+  rewrite run_builtin_not. unfold ListVec.not_b.
+  unfold bindM at 1. unfold pop_argc. unfold bindM at 1. unfold pop_raw at 1.
+  destruct (N.eqb_spec (sp m) 0) as [E0|_]; [lia|].
+  destruct (N.ltb_spec (sp m) (scap m)) as [_|]; [|lia].
+  rewrite Htop. change ((1 <? 1) || (1 <? 1)) with false. cbv iota. unfold ret at 1.
+  unfold bindM at 1. unfold pop_value, pop_deref. unfold bindM at 1. unfold pop_raw.
+  cbn [sp scap with_sp with_stack].
+  destruct (N.eqb_spec (sp m - 1) 0) as [E0|_]; [lia|].
+  destruct (N.ltb_spec (sp m - 1) (scap m)) as [_|]; [|lia].
+  change (sget (with_sp m (sp m - 1)) (sp m - 1)) with (sget m (sp m - 1)).
+  replace (sp m - 1) with (sp0 + 1) by lia. rewrite H1.
+  unfold hderef, lift. cbn [hp with_sp with_stack]. rewrite Hw. unfold ret.
+  set (m' := with_sp (with_sp m (sp0 + 1)) (sp0 + 1 - 1)).
+  assert (Hres : VBool (match w with VBool b0 => negb b0 | _ => false end) = VBool (is_false r1)).
+  { f_equal. destruct (is_false r1) eqn:Ef.
+    - destruct Hwf as [_ Hwf]. rewrite (Hwf eq_refl). reflexivity.
+    - destruct w; try reflexivity. destruct b; [reflexivity|]. destruct Hwf as [Hwf _]. discriminate (Hwf eq_refl). }
+  rewrite Hres. exists (VBool (is_false r1)), m'. split; [reflexivity|].
+  split; [destruct MI as [HI GI SP]; constructor; [exact HI|exact GI|cbn [sp scap m' with_sp with_stack]; lia]|].
+  split; [apply cext_same; try reflexivity; lia|]. split; [apply vrep_bool|].
+  split; [cbn [sp m' with_sp with_stack]; lia|]. split; [intros j _; reflexivity|].
+  repeat split.
+Qed.
